@@ -54,8 +54,11 @@ func GenQProgram(r *core.Rng, allowRemoveAll bool) QProgram {
 		total += n
 	}
 	if r.Chance(1, 5) {
-		p.Form = []string{"array", "sequence", "module-array", "module-sequence"}[r.Intn(4)]
+		p.Form = []string{"array", "sequence", "module-array", "module-sequence", "zero-capacity"}[r.Intn(5)]
 		p.Initial = []int{0, 1, 2, 3, 5, 15, 16, 17, 20, 33, 40}[r.Intn(11)]
+		if p.Form == "zero-capacity" {
+			p.Initial = 0 // MakeWithCapacity(0): the default capacity
+		}
 		total += p.Initial
 	}
 	nc := r.Range(1, 3)
@@ -141,6 +144,8 @@ func RunQProgramBounded(rng *core.Rng, p QProgram, forced []int, systematic bool
 			q = col.Queue[string](notation).MakeFromSequence(col.List[string](notation).MakeFromArray(vals))
 		case "module-array":
 			q = mod.Queue[string](vals)
+		case "zero-capacity":
+			q = col.Queue[string](notation).MakeWithCapacity(0)
 		default:
 			q = mod.Queue[string](col.List[string](notation).MakeFromArray(vals))
 		}
@@ -148,7 +153,7 @@ func RunQProgramBounded(rng *core.Rng, p QProgram, forced []int, systematic bool
 			h.RetOp(h.CallOp("init", "add", v))
 		}
 		res.Cap = int(q.GetCapacity())
-		if n := q.GetSize(); n > res.Cap || n != p.Initial {
+		if n := q.GetSize(); n > res.Cap || n != p.Initial || res.Cap < 1 {
 			res.CtorBad = fmt.Sprintf("a queue built by the %s constructor from %d values reports GetSize()=%d and GetCapacity()=%d", p.Form, p.Initial, n, res.Cap)
 		}
 	}
